@@ -117,3 +117,75 @@ def _(key: ECCKEY(256, EccCurve.SECP256R1)):
 @lemma("dc-rot-entry-equals-the-image-tools-root-key-hash-p384")
 def _(key: ECCKEY(384, EccCurve.SECP384R1)):
     ensures(RKHT._calc_key_hash(key, None) == get_hash(key.export(SPSDKEncoding.NXP), EnumHashAlgorithm.SHA384), label="same-hash-also-for-leading-zero-coordinates")
+
+
+# ---- RoT meta flags of ECC credentials: used root index and count in their nibbles, parse inverts export -----------------------------------
+from spsdk.dat.debug_credential import RotMetaFlags  # noqa: E402
+from spsdk.exceptions import SPSDKValueError  # noqa: E402
+
+inline("spsdk.dat.debug_credential:RotMetaFlags.__init__", "spsdk.dat.debug_credential:RotMetaFlags.validate", "spsdk.dat.debug_credential:RotMetaFlags.parse")
+
+
+@contract("spsdk.dat.debug_credential:RotMetaFlags.export")
+def _(self: Obj(RotMetaFlags, used_root_cert=Range(0, 3), cnt_root_cert=Range(1, 4))) -> bytes:
+    returns((2 ** 31 + self.used_root_cert * 256 + self.cnt_root_cert * 16).to_bytes(4, "little"), label="bit31-used-index-count")
+    pure()
+    sample_with(lambda rnd: (lambda n: {"self": RotMetaFlags(rnd.randrange(n), n)})(rnd.randrange(1, 5)))
+
+
+@lemma("rot-meta-flags-parse-inverts-export")
+def _(used: Range(0, 3), cnt: Range(1, 4)):
+    requires(used < cnt)
+    let(back=RotMetaFlags.parse((2 ** 31 + used * 256 + cnt * 16).to_bytes(4, "little")))
+    ensures(back.used_root_cert == used and back.cnt_root_cert == cnt, label="index-and-count-come-back")
+
+
+# ---- ECC debug credential: the signature is over exactly the bytes in front of it; every field sits where the device reads it ----------------
+from spsdk.dat.debug_credential import DebugCredentialCertificateEcc  # noqa: E402
+from specs.dat import AbsRotMeta, AbsVersion  # noqa: E402
+
+inline("spsdk.dat.debug_credential:DebugCredentialCertificateEcc.get_data_format", "spsdk.dat.debug_credential:DebugCredentialCertificateEcc.export_rot_pub",
+       "spsdk.dat.debug_credential:DebugCredentialCertificateEcc.export_dck_pub", "specs.dat:AbsRotMeta.export", "specs.dat:AbsRotMeta.__len__")
+
+
+def DCECC(meta_len):
+    return Obj(DebugCredentialCertificateEcc, version=Obj(AbsVersion, major=OneOf(2), minor=OneOf(0, 1, 2)), socc=U32, uuid=Bytes(16), cc_socu=U32, cc_vu=U32,
+               cc_beacon=U32, rot_meta=Obj(AbsRotMeta, _bytes=Bytes(meta_len)), rot_pub=ECCKEY(256, EccCurve.SECP256R1), dck_pub=ECCKEY(256, EccCurve.SECP256R1),
+               signature=Bytes(64))
+
+
+def dc_ecc_body(dc):
+    return (dc.version.major.to_bytes(2, "little") + dc.version.minor.to_bytes(2, "little") + dc.socc.to_bytes(4, "little") + dc.uuid
+            + dc.cc_socu.to_bytes(4, "little") + dc.cc_vu.to_bytes(4, "little") + dc.cc_beacon.to_bytes(4, "little") + dc.rot_meta._bytes
+            + dc.rot_pub.x.to_bytes(32, "big") + dc.rot_pub.y.to_bytes(32, "big") + dc.dck_pub.x.to_bytes(32, "big") + dc.dck_pub.y.to_bytes(32, "big"))
+
+
+@contract("spsdk.dat.debug_credential:DebugCredentialCertificateEcc._get_data_to_sign", replay=False)
+def _(self: Union[DCECC(4), DCECC(132)]) -> bytes:
+    returns(dc_ecc_body(self), label="version-socc-uuid-constraints-rotmeta-rotkey-dck-in-this-order")
+    pure()
+    sample_with(lambda rnd: {"self": _mk_dc_ecc(rnd)})
+
+
+@contract("spsdk.dat.debug_credential:DebugCredentialCertificateEcc.export", replay=False)
+def _(self: Union[DCECC(4), DCECC(132)]) -> bytes:
+    returns(dc_ecc_body(self) + self.signature, label="signed-bytes-then-the-signature")
+    pure()
+    sample_with(lambda rnd: {"self": _mk_dc_ecc(rnd)})
+
+
+_DC_KEYS = []
+
+
+def _mk_dc_ecc(rnd):
+    from spsdk.crypto.keys import PrivateKeyEcc
+
+    while len(_DC_KEYS) < 4:
+        _DC_KEYS.append(PrivateKeyEcc.generate_key(EccCurve.SECP256R1).get_public_key())
+    dc = object.__new__(DebugCredentialCertificateEcc)
+    dc.version, dc.socc, dc.uuid = AbsVersion(2, rnd.randrange(3)), rnd.getrandbits(32), bytes(rnd.getrandbits(8) for _ in range(16))
+    dc.cc_socu, dc.cc_vu, dc.cc_beacon = rnd.getrandbits(32), rnd.getrandbits(32), rnd.getrandbits(32)
+    dc.rot_meta = AbsRotMeta(bytes(rnd.getrandbits(8) for _ in range(rnd.choice([4, 132]))))
+    dc.rot_pub, dc.dck_pub = rnd.choice(_DC_KEYS), rnd.choice(_DC_KEYS)
+    dc.signature = bytes(rnd.getrandbits(8) for _ in range(64))
+    return dc
